@@ -24,7 +24,7 @@ from .. import core, env, exact, quant, sweep, tlc
 from ..drivers import multiphase as mp
 
 REL = 1e-12
-FAMILIES = ("shipped", "rescaled", "vaporised", "constant", "linear", "kinked", "invlinear", "subsampled")
+FAMILIES = ("shipped", "rescaled", "vaporised", "constant", "linear", "kinked", "invlinear", "subsampled", "condensate")
 
 
 # ---- spec -> code ------------------------------------------------------------------------------------------------
@@ -144,8 +144,11 @@ def record(cfg: dict, seed: int, terms: dict) -> sweep.SweepLog:
     i = cfg["i"]
     rng = np.random.default_rng([seed, 16, i, 1])
     sw = cfg["Sw"]
-    tab = mp.make_table(rng, cfg["family"], sw)
-    kr_so, kr_cols, kr_meta = mp.relperm_table(rng, sw, cfg["kr"])
+    # rel-perm curves (functions of So with immobile water) measured at another water saturation than the reservoir's: a reservoir
+    # without connate water (Sw exactly 0.0) is described with curves built for Sw = 0.1
+    sw_kr = 0.1 if (sw == 0.0 and i % 2 == 0) else sw
+    tab = mp.make_table(rng, cfg["family"], sw_kr)
+    kr_so, kr_cols, kr_meta = mp.relperm_table(rng, sw_kr, cfg["kr"])
     rho = dict(mp.RHO_SHIPPED) if cfg["shipped_rho"] else mp.random_rho(rng)
     phi = 0.1 if cfg["shipped_rho"] else float(rng.uniform(0.03, 0.3))
     a = float(rng.choice([0.5, 2.0, 3.0]))
@@ -157,7 +160,7 @@ def record(cfg: dict, seed: int, terms: dict) -> sweep.SweepLog:
     # queries: all table rows with the table's saturation + off-node pressures with arbitrary saturations
     n_off = min(200, n)
     p_off = rng.uniform(P[0], P[-1], n_off)
-    so_off = rng.uniform(0, 1 - sw, n_off)
+    so_off = rng.uniform(0, 1 - sw_kr, n_off)
     p = np.concatenate([P, p_off])
     so = np.concatenate([so_t, so_off])
     node = np.concatenate([np.arange(n), np.full(n_off, -1)])
@@ -173,6 +176,21 @@ def record(cfg: dict, seed: int, terms: dict) -> sweep.SweepLog:
     cp = mp.quiet(compressibility_combined_func, p, so, phi, sw, pvt)
     cpa = mp.quiet(compressibility_combined_func, p, so, a * phi, sw, pvt)
     al = mp.quiet(alpha_multiphase, p, so, phi, sw, pvt, kr)
+    # the same cells in other calls: alone, and as the last cell of the call holding the cells up to it (a reservoir whose cells
+    # all lie below some pressure); rows at which a column of the table has a kink are always among the sampled cells
+    pick = sorted(set(np.linspace(0, len(p) - 1, 10).astype(int).tolist())
+                  | {int(np.searchsorted(p, tab["meta"][k])) for k in ("Rv_leaves_zero_at", "bubble_point") if k in tab["meta"]
+                     and np.searchsorted(p, tab["meta"][k]) < len(p)})
+    batch = np.zeros(len(p))
+    for j in pick:
+        vals = []
+        for pj, sj in ((p[j:j + 1], so[j:j + 1]), (p[:j + 1], so[:j + 1])):
+            try:
+                vals.append((float(np.asarray(mp.quiet(lambda_combined_func, pj, sj, pvt, kr), float).reshape(-1)[-1]),
+                             float(np.asarray(mp.quiet(compressibility_combined_func, pj, sj, phi, sw, pvt), float).reshape(-1)[-1])))
+            except Exception:  # noqa: BLE001
+                vals.append((np.nan, np.nan))
+        batch[j] = max(max(quant.e15(v[0], lam[j], abs(lam[j])), quant.e15(v[1], cp[j], abs(cp[j]) if cp[j] != 0 else 1e-300)) for v in vals)
     # end-point saturations written as integers (So = 0 or 1 as Python ints / an integer array)
     try:
         c_int0 = mp.quiet(compressibility_combined_func, p, np.zeros(len(p), dtype=np.int64), phi, sw, pvt)
@@ -182,7 +200,7 @@ def record(cfg: dict, seed: int, terms: dict) -> sweep.SweepLog:
         c_int0 = np.full(len(p), np.nan)
         c_flt0 = np.zeros(len(p))
     as_int = bool(np.all(P == np.round(P)) and (i // len(FAMILIES)) % 2 == 0)   # integer pressure column, as read from a csv file
-    pvt_t, kr_t = mp.frames(P.astype(np.int64) if as_int else P, tab["cols"], so_t, kr_so, kr_cols, sw, as_frame=bool(i % 2 == 0))
+    pvt_t, kr_t = mp.frames(P.astype(np.int64) if as_int else P, tab["cols"], so_t, kr_so, kr_cols, sw_kr, as_frame=bool(i % 2 == 0))
     dens = mp.reordered(rho, i)          # the caller's dictionary: kept, updated and used again below (a parameter study)
     fp = mp.from_table(pvt_t, kr_t, rho, phi, sw, float(P[-1]), rho_dict=dens)
     tab_alpha = np.asarray(fp.pvt_props["alpha"], float)
@@ -195,7 +213,7 @@ def record(cfg: dict, seed: int, terms: dict) -> sweep.SweepLog:
         for name in ("rho_o0", "rho_g0", "rho_w0"):
             dens[name] = rho[name] * 1.7
         cols2 = {k: np.asarray(v, float) * (1.3 if k != "Rv" else 1.0) for k, v in tab["cols"].items()}
-        pvt_t2, kr_t2 = mp.frames(P, cols2, so_t, kr_so, kr_cols, sw, as_frame=bool(i % 2 == 1))
+        pvt_t2, kr_t2 = mp.frames(P, cols2, so_t, kr_so, kr_cols, sw_kr, as_frame=bool(i % 2 == 1))
         mp.from_table(pvt_t2, kr_t2, rho, phi, sw, float(P[-1]), rho_dict=dens)
         lam_kept = mp.quiet(lambda_combined_func, p, so, fp.pvt, fp.kr)
     else:
@@ -208,7 +226,7 @@ def record(cfg: dict, seed: int, terms: dict) -> sweep.SweepLog:
         raise tlc.MachineryError(f"generated configuration {cfg} has non-positive documented storage or mobility")
     slopes = tab["meta"].get("slopes")
     meta = {"what": f"{cfg['family']} table #{i}", "cfg": cfg, "table": tab["meta"], "kr": kr_meta, "rho": rho,
-            "phi": phi, "a": a, "rows": n}
+            "phi": phi, "a": a, "rows": n, "Sw_of_relperm_table": sw_kr}
     log = sweep.SweepLog()
     log.begin("storage", meta)
     for j in range(len(p)):
@@ -217,7 +235,7 @@ def record(cfg: dict, seed: int, terms: dict) -> sweep.SweepLog:
         agree = {"cdiff": quant.e15(cp[j], ref, scale), "phi": quant.e15(cpa[j], a * cp[j], a * scale),
                  "lam": quant.e15(lam[j], doc[j], doc[j]), "intso": quant.e15(c_int0[j], c_flt0[j], scale),
                  "objlam": quant.e15(lam_obj[j], doc[j], doc[j]), "objc": quant.e15(c_obj[j], ref, scale),
-                 "kept": quant.e15(lam_kept[j], doc[j], doc[j])}
+                 "kept": quant.e15(lam_kept[j], doc[j], doc[j]), "batch": int(batch[j])}
         raw = {"p": float(p[j]), "So": float(so[j]), "c": float(cp[j]), "storage_difference": float(ref),
                "storage_scale": float(scale), "lambda": float(lam[j]), "documented_lambda": float(doc[j]),
                "alpha": float(al[j]), "lambda_through_object": float(lam_obj[j]), "c_through_object": float(c_obj[j]),
